@@ -800,7 +800,7 @@ class Workload:
             return self.one_pattern()
         rng = self.rng
         ops = ["lock"] * 4 + ["unlock"] * 3 + ["relock", "update"]
-        if mix in ("value", "big"):
+        if mix in ("value", "big", "mixedbig"):
             ops += ["setval"] * 4 + ["incr", "append", "unlockval"]
         if mix in ("huge", "kb8"):
             ops = ["setval"] * 6 + ["unlock"] * 3
@@ -818,6 +818,8 @@ class Workload:
             data = None
             if op == "setval":
                 n = (rng.choice([3, 17, 64, 120]) if mix != "tiny" else rng.choice([94, 194, 294])) if mix not in ("huge", "kb8") else (rng.randrange(30000, 50000) if mix == "huge" else rng.randrange(6000, 9000))
+                if mix == "mixedbig" and rng.random() < 0.3:
+                    n = rng.choice([3970, 4040, 5000, 7000])       # around and above one 4096-byte batch buffer of the stream writer
                 data = data_set(bytes(rng.randrange(97, 123) for _ in range(n)))
             elif op == "incr":
                 key = 100 + rng.randrange(3)
